@@ -28,6 +28,7 @@ TypeDecls == <<
   [n |-> "ApB", def |-> << <<"A", 1>>, <<"B", -1>> >>, ref |-> "apb", q |-> NoRat,    conv |-> "scale"],
   [n |-> "DpB", def |-> << <<"D", 1>>, <<"B", -1>> >>, ref |-> "dpb", q |-> NoRat,    conv |-> "scale"],
   [n |-> "Bi",  def |-> << <<"B", -1>> >>,             ref |-> "bi",  q |-> NoRat,    conv |-> "scale"],
+  [n |-> "ApBD", def |-> << <<"A", 1>>, <<"B", -1>>, <<"D", -1>> >>, ref |-> "apbd", q |-> NoRat, conv |-> "scale"],
   [n |-> "N",   def |-> <<>>,                          ref |-> NoName, q |-> NoRat,   conv |-> "none"],
   [n |-> "T",   def |-> <<>>,                          ref |-> NoName, q |-> NoRat,   conv |-> "table"],
   [n |-> "Money", def |-> <<>>,                        ref |-> NoName, q |-> NoRat,   conv |-> "money"]
@@ -54,6 +55,7 @@ UnitDecls == <<
   UScaled("ta", "A", <<1, 3>>, "frac", "a"),
   UScaled("da", "A", <<12, 1>>, "int", "ta"),
   UScaled("xa", "A", <<5, 1>>, "dec", "a"),
+  UScaled("aa", "A", <<100, 1>>, "int", "a"),
   URef("b", "B"),
   UScaled("cb", "B", <<1, 100>>, "dec", "b"),
   UScaled("mb", "B", <<60, 1>>, "int", "b"),
@@ -68,13 +70,16 @@ UnitDecls == <<
   URef("a2", "A2"),
   UDerive("ka2", "A2", <<"ka">>),
   UTerm("sq", "A2", << <<"ha", 1>>, <<"ka", 1>> >>),
-  UScaled("aa", "A2", <<100, 1>>, "dec", "a2"),
+  UScaled("aa2", "A2", <<100, 1>>, "dec", "a2"),
   URef("apb", "ApB"),
   UDerive("kapmb", "ApB", <<"ka", "mb">>),
   URef("dpb", "DpB"),
   UDerive("kdpmb", "DpB", <<"kd", "mb">>),
   URef("bi", "Bi"),
   UScaled("kbi", "Bi", <<1000, 1>>, "dec", "bi"),
+  URef("apbd", "ApBD"),
+  UDerive("kapmbkd", "ApBD", <<"ka", "mb", "kd">>),
+  UTerm("hapcbbd", "ApBD", << <<"ha", 1>>, <<"cb", -1>>, <<"bd", -1>> >>),
   UPlain("p", "N"),
   UPlain("q", "N"),
   UPlain("tc", "T"),
@@ -155,6 +160,14 @@ TableConv(tab, a, u, v) ==
     ELSE IF HasRow(tab, u, v) THEN RAdd(RMul(a, Row(tab, u, v)[3]), Row(tab, u, v)[4])
     ELSE IF HasRow(tab, v, u) THEN RDiv(RSub(a, Row(tab, v, u)[4]), Row(tab, v, u)[3])
     ELSE NoRat
+
+(* Rates of the money converter that some traces activate (base currency Z2): *)
+(* <<from, to, rate>>, all exact in six decimals together with their inverses *)
+(* and quotients.                                                             *)
+MRates == { <<"Z2", "Z3", <<5, 4>> >>, <<"Z2", "Z0", <<5, 2>> >>,
+            <<"Z3", "Z2", <<4, 5>> >>, <<"Z0", "Z2", <<2, 5>> >>,
+            <<"Z3", "Z0", <<2, 1>> >>, <<"Z0", "Z3", <<1, 2>> >> }
+MRate(u, v) == (CHOOSE r \in MRates : r[1] = u /\ r[2] = v)[3]
 
 World == [types |-> TypeDecls, units |-> UnitDecls,
           ttable |-> {[from |-> r[1], to |-> r[2], f |-> r[3], o |-> r[4]] : r \in TTable}]
